@@ -21,10 +21,15 @@ pub enum Fail {
     StartErrOnRestart,
     /// a handler outlasts a fatal limit (timeout 2, fail_on_timeout)
     FatalTimeout,
+    /// a handler outlasts a carry-on limit (timeout 2): abandoned, and no failure at all - the
+    /// actor carries on and the owner gets it with everything else that was handled
+    Overrun,
 }
 
 pub struct X {
     owner_script: &'static str,
+    /// the message whose handler is cut off by a carry-on limit (it logs no exit; no failure)
+    abandoned: Option<u32>,
 }
 
 pub fn owner_scripts() -> Vec<(&'static str, Vec<Op>)> {
@@ -69,7 +74,7 @@ fn oracle(s: &ProgScene<X>, t: &Trace) -> Vec<Violation> {
     let script = s.extra.owner_script;
     let term = an.task_end(0);
     let stopped_exit = an.exits.iter().find(|e| e.a == 0 && e.cb == Cb::Stopped).map(|e| e.idx);
-    let graceful = matches!(term, Some((_, false))) && stopped_exit.is_some() && !an.role_failed(0, &s.roles[0].started);
+    let graceful = matches!(term, Some((_, false))) && stopped_exit.is_some() && !an.role_failed_except(0, &s.roles[0].started, s.extra.abandoned);
     let op_at = |c: u8, i: u16| s.clients.get(c as usize).and_then(|cs| cs.ops.get(i as usize));
     // join / consume yield the value or None - a failed actor's panic is not re-thrown into the owner
     for o in &an.ops {
@@ -118,10 +123,19 @@ fn oracle(s: &ProgScene<X>, t: &Trace) -> Vec<Violation> {
     let mut digest = DIGEST0;
     let mut handled = 0u32;
     let mut last_inst: Option<u16> = None;
+    // (a restart somebody asked for, that is: a fresh value nobody asked for has lost the state)
+    let asked = an.ops.iter().filter(|o| o.ok() && matches!(s.clients.get(o.c as usize).and_then(|cs| cs.ops.get(o.i as usize)), Some(crate::ops::Op::Restart(_)))).count()
+        + t.log.iter().filter(|e| matches!(e.ev, crate::world::Ev::Ctx { a: 0, op: crate::world::CtxOp::Restart, ok: true })).count();
+    let mut fresh_values = 0usize;
     for e in &an.exits {
         if e.a == 0 && e.cb == Cb::Started && last_inst != Some(e.inst) {
-            digest = DIGEST0;
-            handled = 0;
+            if last_inst.is_none() || fresh_values < asked {
+                digest = DIGEST0;
+                handled = 0;
+            }
+            if last_inst.is_some() {
+                fresh_values += 1;
+            }
             last_inst = Some(e.inst);
         }
         if let (0, Cb::Msg(id)) = (e.a, e.cb) {
@@ -293,11 +307,14 @@ fn make_case_slow(script: (&'static str, Vec<Op>), subs: &[Vec<L>], stopper: boo
             role.started = vec![StartBeh::Ok, StartBeh::Err];
             clients.push(ClientSpec { init: vec![HInit::Addr], ops: vec![Op::Restart(H::Addr(0))] });
         }
-        Fail::FatalTimeout => role.work.push((msg_id(1, 0), Work { sleep: 5, ..Work::default() })),
+        Fail::FatalTimeout | Fail::Overrun => role.work.push((msg_id(1, 0), Work { sleep: 5, ..Work::default() })),
     }
     let mut spawn = SpawnCfg::plain(mailbox);
     if fail == Fail::FatalTimeout {
         spawn.timeout = Some((2, true));
+    }
+    if fail == Fail::Overrun {
+        spawn.timeout = Some((2, false));
     }
     if RECREATE.with(|r| r.get()) {
         spawn.strat = crate::scenes::Strat::Recreate;
@@ -321,7 +338,7 @@ fn make_case_slow(script: (&'static str, Vec<Op>), subs: &[Vec<L>], stopper: boo
         // a join future polled exactly once sees whether the handle's lock suspends
         exec: ExecCfg { lock_yield_is_choice: script.0.contains("polled"), ..ExecCfg::default() },
         bound: None,
-        scene: Box::new(ProgScene { variant: crate::progscene::current_variant(), attach: crate::progscene::attach_for(mailbox), spawn, roles: vec![role], clients, extra: X { owner_script: script.0 }, oracle }),
+        scene: Box::new(ProgScene { variant: crate::progscene::current_variant(), attach: crate::progscene::attach_for(mailbox), spawn, roles: vec![role], clients, extra: X { owner_script: script.0, abandoned: (fail == Fail::Overrun).then(|| msg_id(1, 0)) }, oracle }),
     }
 }
 
@@ -381,6 +398,24 @@ fn plain_cases(tier: Tier) -> Vec<Case> {
                 for sub in [vec![L::SendAddr, L::Restart, L::SendAddr], vec![L::CallAddr, L::Restart], vec![L::Restart, L::CallCal, L::Restart, L::SendAddr]] {
                     let stopper = !self_terminating(script.0);
                     v.push(make_case(script.clone(), &[sub], stopper, Fail::No, mb));
+                }
+            }
+        }
+        RECREATE.with(|r| r.set(false));
+    }
+    // a handler overruns a carry-on limit and is abandoned, under both restartable strategies: that
+    // is no failure and no restart - the owner gets the same value, with what the other messages
+    // made of it
+    for recreate in [false, true] {
+        RECREATE.with(|r| r.set(recreate));
+        for script in owner_scripts() {
+            if !matches!(script.0, "join" | "consume" | "late-join" | "late-consume" | "consume_sync") {
+                continue;
+            }
+            for &mb in &[Mailbox::U, Mailbox::B(1)] {
+                for sub in [vec![L::SendAddr, L::SendAddr], vec![L::SendAddr, L::CallAddr, L::SendAddr], vec![L::CallAddr, L::SendAddr]] {
+                    let stopper = !self_terminating(script.0);
+                    v.push(make_case(script.clone(), &[vec![L::SendAddr], sub], stopper, Fail::Overrun, mb));
                 }
             }
         }
